@@ -371,3 +371,8 @@ func VerifEncodeTx(db *DB, nodeID uint64, txid ltx.TXID, pre ltx.Checksum) []byt
 	hdr := ltx.Header{PageSize: verifP, Commit: 1, MinTXID: txid, MaxTXID: txid, PreApplyChecksum: pre, NodeID: nodeID}
 	return verifEncodeLTX(hdr, []uint32{1}, [][]byte{p}, verifSpecChecksum([][]byte{p}))
 }
+
+// VerifSetPos stores a position (what the replication stream does when it applies a transaction).
+func VerifSetPos(db *DB, txid uint64, chk uint64) {
+	db.pos.Store(ltx.Pos{TXID: ltx.TXID(txid), PostApplyChecksum: ltx.Checksum(chk) | ltx.ChecksumFlag})
+}
